@@ -28,7 +28,8 @@ def _chains(cases, tier, spec):
     k = min(k, n // 3)
     out = []
     for j in range(k):
-        out.append({"__chain__": [plain[j], plain[(j + n // 3) % n], plain[(j + 2 * (n // 3)) % n]]})
+        out.append({"__chain__": [plain[j], plain[(j + n // 3) % n], plain[(j + 2 * (n // 3)) % n]],
+                    "same_dir": j % 2 == 1})
     return out
 
 
@@ -62,8 +63,14 @@ def main():
         """one case, or a chain of cases run one after the other in the same process (whatever
         one run leaves behind in module / class level state meets the next input)"""
         if isinstance(case, dict) and "__chain__" in case:
+            import shutil
             for j, c in enumerate(case["__chain__"]):
-                sub = os.path.join(work, f"k{j}")
+                # every other chain reuses one directory: the next input sits at the very path the
+                # previous one had (regenerated output of a running simulation, a notebook re-reading)
+                sub = os.path.join(work, "k" if case.get("same_dir") else f"k{j}")
+                if case.get("same_dir"):
+                    shutil.rmtree(sub, ignore_errors=True)
+                    rec.count("chained_case_runs_same_paths")
                 os.makedirs(sub, exist_ok=True)
                 mod.run_case(c, sub, rec)
                 rec.count("chained_case_runs")
